@@ -5,9 +5,14 @@
    dict-based table lookup `impl_lookup`).
    Domain `wf T D f` = bpch-convention content: field widths, >= 1 time block, every time block repeats the
    tracers of the first with the same metadata, one model grid per file, one time stamp per time block, no
-   tracer twice in a time block, distinct variable names, <= 48 layers (default vertgrid).
+   tracer twice in a time block, distinct variable names.  `tables_ok T D` = the keys of tracerinfo.dat (tracer
+   numbers) and diaginfo.dat (categories) are unique (a table with a repeated key has no defined meaning in the property).
+   The model describes the REPAIRED header walk (fixes/C18-one-tracer-two-times.patch: the repeated first tracer is not
+   appended a second time when the repetition is also the last header) and warning (fixes/C18-warn-format.patch: more than
+   48 layers only warns); the former `_refuted` theorems for these two defects are gone and the three main theorems hold
+   without any excluded shape.
    Clause (4) of the property (the block-walking reader bpch2 presents the same data) has NO theorem: bpch2 cannot
-   run in this environment (known finding C18-bpch2-cannot-run) and is not modelled. *)
+   run in this environment (known finding C18-bpch2-cannot-run, region 1) and is not modelled. *)
 From PNC Require Import Base.Util Base.Words Gen.Bpch Model.Bpch Proofs.WordsProofs Proofs.BpchProofs.
 From Coq Require Import String QArith.
 Import Coq.Lists.List. Import ListNotations.
@@ -34,37 +39,37 @@ Theorem C18_lookup_is_association : forall T D cat tid u,
 Proof. exact impl_lookup_spec. Qed.
 Print Assumptions C18_lookup_is_association.
 
-(* Clauses (1)-(3), reader: for every bpch-convention content EXCEPT one tracer x two time blocks, the reader
-   model presents exactly the content: titles, model record, every tracer's ids / unit / reserved / dims / nested-grid
-   offsets, the SCALE and unit of the table entry offset(category)+id, the time bounds of every time block and
-   the raw data of every tracer at every time (scaled reading multiplies these by v_scale: Corr `scaled_ok`).
-   _partial: the excluded shape is refuted below. *)
-Theorem C18_reader_presents_content_partial : forall T D f,
-  wf T D f = true -> tables_ok T D = true -> one_by_two f = false ->
+(* Clauses (1)-(3), reader: for EVERY bpch-convention content (any number of time blocks, tracers per block, layers
+   per tracer, nested-grid offsets) and all tables with unique keys the reader model presents exactly the content: titles,
+   model record, every tracer's ids / unit / reserved / dims / nested-grid offsets, the SCALE and unit of the table entry
+   offset(category)+id, the time bounds of every time block and the raw data of every tracer at every time (scaled
+   reading multiplies these by v_scale: Corr `scaled_ok`). *)
+Theorem C18_reader_presents_content : forall T D f,
+  wf T D f = true -> tables_ok T D = true ->
   impl_open T D (enc f) (4 * lenZ (enc f)) = Ok (view_of T D f).
 Proof. exact read_enc. Qed.
-Print Assumptions C18_reader_presents_content_partial.
+Print Assumptions C18_reader_presents_content.
 
 (* Clause (1): reading without scaling and writing back reproduces the original words. *)
-Theorem C18_read_write_bytes_partial : forall T D f,
-  wf T D f = true -> tables_ok T D = true -> one_by_two f = false ->
+Theorem C18_read_write_bytes : forall T D f,
+  wf T D f = true -> tables_ok T D = true ->
   exists v, impl_open T D (enc f) (4 * lenZ (enc f)) = Ok v /\ impl_write v = enc f.
 Proof. exact read_write_bytes. Qed.
-Print Assumptions C18_read_write_bytes_partial.
+Print Assumptions C18_read_write_bytes.
 
-(* The writer alone needs no exclusion: it produces the spec encoding of every bpch-convention content. *)
+(* The writer alone (no table hypothesis): it produces the spec encoding of every bpch-convention content. *)
 Theorem C18_writer_conforms : forall T D f, wf T D f = true -> impl_write (view_of T D f) = enc f.
 Proof. exact write_view. Qed.
 Print Assumptions C18_writer_conforms.
 
 (* Clause (3): writing any bpch-convention view (its blocks form a wf file and its names/scales/units are those of
    the tables) and reading the result returns the same view: tracer data, time bounds, ids, grid header. *)
-Theorem C18_write_read_partial : forall T D v,
-  wf T D (file_of v) = true -> tables_ok T D = true -> one_by_two (file_of v) = false ->
+Theorem C18_write_read : forall T D v,
+  wf T D (file_of v) = true -> tables_ok T D = true ->
   view_of T D (file_of v) = v ->
   impl_write v = enc (file_of v) /\ impl_open T D (impl_write v) (4 * lenZ (impl_write v)) = Ok v.
 Proof. exact write_read. Qed.
-Print Assumptions C18_write_read_partial.
+Print Assumptions C18_write_read.
 
 (* Translation validation (tie T): reader and writer header layouts agree field by field (the writer's `dim` is
    the reader's f13+f14), pads are the record payload sizes, skip = data bytes + 8. *)
@@ -80,7 +85,7 @@ Theorem C18_layouts :
 Proof. exact writer_layout. Qed.
 Print Assumptions C18_layouts.
 
-(* ---- refutations: the full statement ("for all files with 1..n time blocks ...") is false of the faithful model *)
+(* ---- concrete contents used below ------------------------------------------------------------------------ *)
 Definition C18_blk (tau0 : Z) (tid nz : Z) (d : list word) : block :=
   {| b_model := [1195724627; 893334327; 1277173792; 538976288; 538976288; 1084227584; 1082130432; 1; 1];
      b_cat := [1229598017; 1447505188; 538976288; 538976288; 538976288; 538976288; 538976288; 538976288; 538976288; 538976288];
@@ -88,27 +93,6 @@ Definition C18_blk (tau0 : Z) (tid nz : Z) (d : list word) : block :=
      b_nx := 1; b_ny := 1; b_nz := nz; b_start := [1; 1; 1]; b_data := d |}.
 Definition C18_file (times : list (list block)) : bfile :=
   {| f_ftype := repeat 538976288 10; f_title := repeat 538976288 20; f_times := times |}.
-
-(* one tracer, two time blocks: the header walk adds the tracer twice (offset == file_size on the repeated header) and
-   numpy rejects the duplicate field name — the file cannot be opened at all *)
-Theorem C18_one_tracer_two_times_refuted : exists T D f,
-  wf T D f = true /\ tables_ok T D = true /\ one_by_two f = true
-  /\ impl_open T D (enc f) (4 * lenZ (enc f)) = Err.
-Proof.
-  exists [], [], (C18_file [[C18_blk 1083129856 1 1 [1065353216]]; [C18_blk 1083129857 1 1 [1073741824]]]).
-  vm_compute. repeat split; reflexivity.
-Qed.
-Print Assumptions C18_one_tracer_two_times_refuted.
-
-(* a tracer with more than 48 layers under the default vertgrid: the "not consistent" warning's format string raises *)
-Theorem C18_more_than_48_layers_refuted : exists T D f,
-  wf_shape f = true /\ tables_ok T D = true /\ one_by_two f = false /\ length (f_times f) = 1%nat
-  /\ impl_open T D (enc f) (4 * lenZ (enc f)) = Err.
-Proof.
-  exists [], [], (C18_file [[C18_blk 1083129856 1 49 (repeat 1065353216 49)]]).
-  vm_compute. repeat split; reflexivity.
-Qed.
-Print Assumptions C18_more_than_48_layers_refuted.
 
 (* ---- non-vacuity ------------------------------------------------------------------------------------------ *)
 Definition C18_T : tinfo := [ {| t_ord := 1; t_name := 0; t_scale := 1000000000 # 1; t_unit := 0 |};
@@ -122,9 +106,18 @@ Definition C18_example : bfile :=
   C18_file [[C18_blk 1083129856 1 1 [1065353216]; C18_blk2 1083129856 [1; 2; 3; 4; 5; 6]];
             [C18_blk 1083129857 1 1 [1073741824]; C18_blk2 1083129857 [7; 8; 9; 10; 11; 12]]].
 Example C18_hyp_inhabited :
-  wf C18_T C18_D C18_example = true /\ tables_ok C18_T C18_D = true /\ one_by_two C18_example = false
+  wf C18_T C18_D C18_example = true /\ tables_ok C18_T C18_D = true
   /\ length (enc C18_example) = 276%nat
   /\ map v_scale (r_vars (view_of C18_T C18_D C18_example)) = [1000000000 # 1; 1 # 8]
   /\ file_of (view_of C18_T C18_D C18_example) = C18_example
   /\ scaled_ok (1000000000 # 1) 1073741824 1324247848 = true.
+Proof. vm_compute. repeat split; reflexivity. Qed.
+
+(* the two shapes that the unrepaired code could not open are inside the domain and are presented correctly:
+   one tracer x two time blocks, and a tracer with 49 layers *)
+Example C18_formerly_failing_shapes :
+  let f1 := C18_file [[C18_blk 1083129856 1 1 [1065353216]]; [C18_blk 1083129857 1 1 [1073741824]]] in
+  let f2 := C18_file [[C18_blk 1083129856 1 49 (repeat 1065353216 49)]] in
+  wf [] [] f1 = true /\ impl_open [] [] (enc f1) (4 * lenZ (enc f1)) = Ok (view_of [] [] f1)
+  /\ wf [] [] f2 = true /\ impl_open [] [] (enc f2) (4 * lenZ (enc f2)) = Ok (view_of [] [] f2).
 Proof. vm_compute. repeat split; reflexivity. Qed.
